@@ -149,7 +149,9 @@ def gen_function_pair(b, name, log_args=None):
 
 
 class Bisim25(Bisim):
-    """remembers each side's last outcome (so that post-state clauses can be tied to normal termination)"""
+    """remembers each side's last outcome (so that post-state clauses can be tied to normal termination); cut keys follow
+    `yield from` into sub-generators that no variable refers to (scan_nd's loop lives in `yield from inner_scan_nd()`)"""
+    deep_keys = True
 
     def outcome(self, side, tok):
         out = Bisim.outcome(self, side, tok)
